@@ -18,6 +18,11 @@ MANAGER_DIFF = dict(
     files={'internal/helpers/zz_verif_manager_test.go': 'go/harness/helpers/zz_verif_manager_test.go'},
     env={'VERIF_EPISODES': 300})
 
+LLIST_DIFF = dict(
+    name='llist', pkg='./internal/linkedlist/', test='TestVerifLListDiff', timeout=240,
+    files={'internal/linkedlist/zz_verif_llist_test.go': 'go/harness/linkedlist/zz_verif_llist_test.go'},
+    env={'VERIF_EPISODES': 300})
+
 CODEC_DIFF = dict(
     name='codec', pkg='./', test='TestVerifCodecDiff', timeout=240,
     files={'zz_verif_codec_test.go': 'go/harness/root/zz_verif_codec_test.go'},
@@ -107,8 +112,8 @@ CONC = {
                 families=['burst', 'lifecycle', 'cancel', 'batch', 'saturate', 'persist', 'recover', 'dist', 'multiq', 'pool', 'order'],
                 quick_episodes=150, thorough_episodes=2000, crash_props=['C03'],
                 native=dict(scenarios=['bigburst'], rounds=1, thorough_rounds=1),
-                diffs=[QUEUES_DIFF], diff_footprint=['E', 'D', 'V', 'S', 'PV', 'H+', 'H-', 'HV', 'HPV', 'validator:'],
-                diff_oracles=['fifo.lost', 'fifo.order', 'fifo.enqueue-result', 'heap.lost', 'heap.order', 'heap.enqueue-result'],
+                diffs=[QUEUES_DIFF, LLIST_DIFF], diff_footprint=['E', 'D', 'V', 'S', 'PV', 'H+', 'H-', 'HV', 'HPV', 'LL+', 'LLPF', 'LLPB', 'LLR', 'LLLEN', 'LLS', 'validator:'],
+                diff_oracles=['fifo.lost', 'fifo.order', 'fifo.enqueue-result', 'heap.lost', 'heap.order', 'heap.enqueue-result', 'llist.'],
                 rule=SLICE_JOB_RULE + '; plus the queue differential test of C04 (an element accepted by a queue is handed out exactly once)', trusted_base=TB_CONC,
                 assumptions=['job-level theorem: each enqueued job is handed out by its queue at most once (Fifo/Heap refinement theorems, C04) and each payload sent to a pool node is received at most once (channel semantics)',
                              '"eventually runs" is the progress property C03; identity of ID/data: monitors + C12']),
@@ -116,6 +121,7 @@ CONC = {
                 families=['burst', 'lifecycle', 'cancel', 'saturate', 'pool', 'persist', 'recover', 'multiq', 'batch', 'order', 'staleloop'],
                 quick_episodes=150, thorough_episodes=2000, crash_props=['C03'],
                 native=dict(scenarios=['bigburst', 'bigbatch'], rounds=1, thorough_rounds=1),
+                diffs=[LLIST_DIFF], diff_footprint=['LL+', 'LLPF', 'LLPB', 'LLR', 'LLLEN', 'LLS', 'validator:'], diff_oracles=['llist.'],
                 rule='episodes = scenario programs run under the controlled scheduler on the instrumented library (see C01); per episode the worker-level wake-up protocol is projected onto '
                      'coq/SliceWake.v — every change of the event loop\'s guard inputs (status, curProcessing, concurrency, pending) with the flag "this thread goes on to notify", every notify, '
                      'receive, park, close / reopen of the signal channel — and replayed on the extracted model, including the requirement that every step making work dispatchable is followed by '
@@ -257,10 +263,11 @@ CONC = {
     'C18': dict(module='Properties.C18', file='Properties/C18.v', slices=['pool', 'disp'],
                 families=['pool', 'lifecycle', 'lifeseq', 'burst', 'saturate'],
                 quick_episodes=300, thorough_episodes=4000,
-                rule='episodes = scenario programs run under the controlled scheduler on the instrumented library (see C01); per pool node the log is projected onto coq/SlicePool.v '
+                diffs=[LLIST_DIFF], diff_footprint=['LL+', 'LLPF', 'LLPB', 'LLR', 'LLLEN', 'LLS', 'validator:'], diff_oracles=['llist.'],
+                rule='records of the idle-list differential test (internal/linkedlist against coq/LList.v: PushNode, PopBack, PopFront, Remove of members and of nodes that have left the list, Len, NodeSlice); episodes = scenario programs run under the controlled scheduler on the instrumented library (see C01); per pool node the log is projected onto coq/SlicePool.v '
                      '(creation + server spawn, PushNode, PopBack / successful Remove, job and stop payloads sent and received, Cache.Put) and replayed on the extracted model; family pool: '
                      'TunePool sequences under load, idle expiry with ticks racing dispatch (virtual time), min-idle ratios 1..100, Stop / Restart cycles with and without a context; monitors: '
-                     'pool goroutines alive at once <= largest concurrency configured + 1, idle workers <= configured minimum after the expiry elapsed, >= 1 idle worker at rest while running, '
+                     'pool goroutines alive at once <= largest concurrency configured, idle workers <= configured minimum after the expiry elapsed, >= 1 idle worker at rest while running, '
                      'no library goroutine alive after Stop returned and the system came to rest (exact, from the scheduler); distinct_nontrivial = distinct schedule hashes',
                 trusted_base=TB_CONC,
                 assumptions=['"idle that long" is virtual time (the scheduler advances the clock to the next ticker deadline)',
